@@ -201,12 +201,16 @@ impl Prop for C15 {
             ));
         }
         // based integers -------------------------------------------------------------------
+        let based: Vec<u64> = super::c13::ns(tier);
         f.push(Family::new(
             "based",
             Mode::Full,
-            "n in [0, 1, 10, 255, 4096, 65535, 2^31, 2^40, 2^53] printed in hex, octal and binary",
+            "every n of the C13 value set (0..=1100, 2^k-1, 2^k, 2^k+1, and every n whose hex digits contain a word of config.json behind a digit or a hex letter) up to 2^53, printed in hex, octal and binary",
             move |ch| {
-                let n = *ch.pick(&[0u64, 1, 10, 255, 4096, 65535, 1 << 31, 1 << 40, 1 << 53]);
+                let n = *ch.pick(&based);
+                if n > (1u64 << 53) {
+                    return None;
+                }
                 let w = *ch.pick(&["hex", "octal", "binary"]);
                 Some(Case { kind: "based".into(), cfg: Cfg::default(), lang: "en".into(), line: format!("{} to {}", n, w) })
             },
